@@ -451,10 +451,31 @@ SKELETON = {
     ('repr', 'shrink_to'): {0: r'!self\.is_heap_buffer\(\)', 3: r'heap\.is_unique\(\)'},
 }
 
+# a local that a translated condition mentions is identified by what it is bound to, not by its name: if the expected
+# name is not bound in the function, the local whose `let` has this right-hand side (identifiers abstracted) takes its place
+LOCAL_ROLES = {
+    ('repr', 'reserve', 'needed_capacity'): r'\w+\.checked_add\(\w+\)\.ok_or\(ReserveError\)\?',
+    ('repr', 'shrink_to', 'new_capacity'): r'\w+\.len\(\)\.max\(\w+\)',
+    ('repr', 'shrink_to', 'old_capacity'): r'\w+\.capacity\(\)',
+    ('repr', 'len', 'last_byte'): r'self\.last_byte\(\)',
+}
+def resolve_locals(key, fn, body, env):
+    out = {}
+    for k, v in env.items():
+        role = LOCAL_ROLES.get((key, fn, k))
+        if role and not re.search(r'\blet\s+(?:mut\s+)?' + re.escape(k) + r'\b', body):
+            m = re.search(r'\blet\s+(?:mut\s+)?(\w+)\s*(?::[^=;]*)?=\s*' + role + r'\s*;', body)
+            if m:
+                out[m.group(1)] = v
+                continue
+        out[k] = v
+    return out
+
 def gen_conds(srcs, consts):
     out = ["(* ---- branch conditions, translated expression by expression ---- *)"]
     for key, fn, occ, idx, name, params, env in SITES:
         body = fn_body(srcs[key], fn, occ, key)
+        env = resolve_locals(key, fn, body, env)
         cs = [c for c in conds_in(body)]
         if idx >= len(cs):
             die(f"{key}.rs::{fn}: expected at least {idx + 1} `if` conditions, found {len(cs)}")
@@ -472,7 +493,7 @@ def gen_conds(srcs, consts):
                 die(f"{key}.rs::{fn}: `if` #{idx} is {cs[idx] if idx < len(cs) else None!r}, expected /{rx}/")
     # Repr::len arithmetic and shrink_to's new capacity
     lb = fn_body(srcs['repr'], 'len', 0)
-    m = re.search(r'let inline_len = (.+?);', lb, re.S)
+    m = re.search(r'let \w+ = (\(\w+ as usize\).+?);', lb, re.S)
     if not m:
         die("Repr::len: inline_len expression not found")
     out.append("Definition expr_inline_len (last_byte : N) : N := "
@@ -480,7 +501,7 @@ def gen_conds(srcs, consts):
     if not re.search(r'tail_bytes\[7\] = 0;\s*usize::from_le_bytes\(tail_bytes\)', lb):
         die("Repr::len: heap/static length decode changed")
     sb = fn_body(srcs['repr'], 'shrink_to', 0)
-    m = re.search(r'let new_capacity = (.+?);', sb)
+    m = re.search(r'let \w+ = (\w+\.len\(\)\.max\(\w+\));', sb)
     if not m:
         die("shrink_to: new_capacity expression not found")
     out.append("Definition expr_shrink_new_capacity (len min_capacity : N) : N := "
